@@ -49,16 +49,35 @@ def main():
     confirmed = res.get('applies') and res.get('demo_clean_rc') == 0 and res.get('demo_patched_rc') not in (0, None) and '165 passed' in res.get('pytest', '')
     res['confirmed'] = bool(confirmed)
     if confirmed:
-        assert sh('git -C %s status --porcelain' % REPO)[1].strip() == '', '/repo not clean'
+        # run the property's quick check against a scratch copy of /repo with the patch applied
+        # (HOTXLFP_REPO), so that agents working against /repo are not disturbed; --in-repo applies it
+        # to /repo itself and restores it afterwards
+        in_repo = '--in-repo' in sys.argv
+        wt2 = tempfile.mkdtemp(prefix='mutrun_', dir='/tmp')
+        os.rmdir(wt2)
         try:
-            rc, out = sh('git -C %s apply %s' % (REPO, patch))
-            assert rc == 0, out
-            rc, out = sh('/venv/bin/python harness/check.py %s --tier quick' % prop, cwd=VERIF)
+            if in_repo:
+                assert sh('git -C %s status --porcelain' % REPO)[1].strip() == '', '/repo not clean'
+                rc, out = sh('git -C %s apply %s' % (REPO, patch))
+                assert rc == 0, out
+                env = ''
+            else:
+                rc, out = sh('git -C %s worktree add -q --detach %s HEAD' % (REPO, wt2))
+                assert rc == 0, out
+                rc, out = sh('git apply %s' % patch, cwd=wt2)
+                assert rc == 0, out
+                env = 'HOTXLFP_REPO=%s ' % wt2
+            rc, out = sh(env + '/venv/bin/python harness/check.py %s --tier quick' % prop, cwd=VERIF)
             res['check_rc'] = rc
             res['check_tail'] = [l[:300] for l in out.strip().split('\n')[-4:]]
         finally:
-            sh('git -C %s checkout -- .' % REPO)
-            sh('git -C %s clean -fdq -e __pycache__' % REPO)
+            if in_repo:
+                sh('git -C %s checkout -- .' % REPO)
+            else:
+                sh('git -C %s worktree remove --force %s' % (REPO, wt2))
+                shutil.rmtree(wt2, ignore_errors=True)
+                # bring the generated tables back to /repo's own
+                sh('/venv/bin/python -m harness.extract', cwd=VERIF)
         res['detected'] = res.get('check_rc') == 1
     print(json.dumps(res, indent=1))
     if keep and confirmed:
